@@ -163,3 +163,268 @@ theorem lemma_mid_capture (s : Insp) (p c : Bytes) (seen : List Nat) (h : MidInv
       exact List.mem_map.mpr ⟨y, List.mem_filter.mpr ⟨hy, by simpa using hs⟩, rfl⟩
 
 end Oslo.Insp
+
+namespace Oslo.Insp
+
+/-- invariant between chunks -/
+structure StreamInv (s : Insp) (p : Bytes) : Prop where
+  sinv : SInv s
+  bnd : Bnd s
+  total : s.total = p.length
+  regs : ∀ x ∈ s.regions, RegInv x.2 p
+
+/-- the first `_capture(chunk)` of `eat_chunk` presents the chunk to every region -/
+theorem lemma_first_capture (s : Insp) (p c : Bytes) (h : StreamInv s p) :
+    let s1 := ({ s with total := s.total + c.length } : Insp).captureAll c []
+    MidInv s1 p c (s.regions.map (·.2.rid)) ∧ ∀ x ∈ s1.regions, x.2.rid ∈ s.regions.map (·.2.rid) := by
+  intro s1
+  have hs0 : SInv ({ s with total := s.total + c.length } : Insp) := h.sinv
+  have hs1 : SInv s1 := lemma_rinv_captureAll _ c [] hs0
+  have hreg : s1.regions = s.regions.map (fun x => (x.1, stepRegion c (p.length + c.length) x.2)) := by
+    show (({ s with total := s.total + c.length } : Insp).captureAll c []).regions = _
+    rw [lemma_captureAll_nil]
+    simp only [h.total]
+  have hmem : ∀ x ∈ s1.regions, ∃ y ∈ s.regions, x = (y.1, stepRegion c (p.length + c.length) y.2) := by
+    intro x hx
+    rw [hreg] at hx
+    simp only [List.mem_map] at hx
+    obtain ⟨y, hy, rfl⟩ := hx
+    exact ⟨y, hy, rfl⟩
+  constructor
+  · refine ⟨hs1, ?_, by show s.total + c.length = _; rw [h.total], ?_, ?_⟩
+    · intro x hx
+      obtain ⟨y, hy, rfl⟩ := hmem x hx
+      show _ < s.nextRid
+      rw [lemma_stepRegion_rid]
+      exact h.bnd y hy
+    · intro i hi
+      simp only [List.mem_map] at hi
+      obtain ⟨y, hy, rfl⟩ := hi
+      exact h.bnd y hy
+    · intro x hx
+      obtain ⟨y, hy, rfl⟩ := hmem x hx
+      refine ⟨fun _ => lemma_regInv_step y.2 p c (h.regs y hy), fun hn => ?_⟩
+      exfalso
+      apply hn
+      simp only [lemma_stepRegion_rid]
+      exact List.mem_map.mpr ⟨y, hy, rfl⟩
+  · intro x hx
+    obtain ⟨y, hy, rfl⟩ := hmem x hx
+    simp only [lemma_stepRegion_rid]
+    exact List.mem_map.mpr ⟨y, hy, rfl⟩
+
+/-- the forward proviso for every post-processing step inside the `while new_regions` loop -/
+def fwdFollow : Nat → Insp → Bytes → List Nat → Bytes → Prop
+  | 0, _, _, _, _ => True
+  | fuel + 1, s, c, seen, p =>
+    let fresh := s.regions.filter (fun x => !seen.contains x.2.rid)
+    if fresh.isEmpty then True else
+    let s1 := s.captureAll c (fresh.map (·.1))
+    PPFwd s1 p ∧
+    match postProcess s1 with
+    | (_, some _) => True
+    | (s2, none) => fwdFollow fuel s2 c (seen ++ fresh.map (·.2.rid)) p
+
+/-- … and for one whole `eat_chunk` -/
+def fwdEat (s : Insp) (c p : Bytes) : Prop :=
+  if s.finished then True else
+  let s2 := ({ s with total := s.total + c.length } : Insp).captureAll c []
+  PPFwd s2 p ∧
+  match postProcess s2 with
+  | (_, some _) => True
+  | (s3, none) => fwdFollow 8 s3 c (s.regions.map (·.2.rid)) p
+
+/-- what is guaranteed about the state `followUp` returns -/
+theorem lemma_followUp_mid (fuel : Nat) : ∀ (s : Insp) (p c : Bytes) (seen : List Nat),
+    MidInv s p c seen → fwdFollow fuel s c seen p →
+    ∃ seen', MidInv (followUp fuel s c seen).1 p c seen' ∧
+      ((followUp fuel s c seen).2 = none → ∀ x ∈ (followUp fuel s c seen).1.regions, x.2.rid ∈ seen') := by
+  induction fuel with
+  | zero =>
+    intro s p c seen h _
+    by_cases hany : (s.regions.any (fun x => !seen.contains x.2.rid)) = true
+    · refine ⟨seen, by simp only [followUp, hany, if_true]; exact h, fun hnone => ?_⟩
+      simp only [followUp] at hnone
+      rw [if_pos hany] at hnone
+      exact absurd hnone (by simp)
+    · refine ⟨seen, by simp only [followUp, hany, Bool.false_eq_true, if_false]; exact h, fun _ x hx => ?_⟩
+      simp only [followUp, hany, Bool.false_eq_true, if_false] at hx
+      simp only [Bool.not_eq_true, List.any_eq_false, Bool.not_eq_true', List.contains_eq_mem,
+        decide_eq_false_iff_not, Decidable.not_not] at hany
+      exact hany x hx
+  | succ n ih =>
+    intro s p c seen h hf
+    unfold followUp
+    unfold fwdFollow at hf
+    dsimp only at hf ⊢
+    split
+    · rename_i hemp
+      refine ⟨seen, h, fun _ x hx => ?_⟩
+      simp only [List.isEmpty_iff, List.filter_eq_nil_iff, Bool.not_eq_true', List.contains_eq_mem,
+        decide_eq_false_iff_not, Decidable.not_not] at hemp
+      exact hemp x hx
+    · rename_i hemp
+      rw [if_neg hemp] at hf
+      have hne : s.regions.filter (fun x => !seen.contains x.2.rid) ≠ [] := by
+        simpa [List.isEmpty_iff] using hemp
+      obtain ⟨hmid1, hall1⟩ := lemma_mid_capture s p c seen h hne
+      obtain ⟨hpp, hrest⟩ := hf
+      have hmid2 := lemma_mid_postProcess _ p c _ hmid1 hall1 hpp
+      split
+      · rename_i s2 e heq
+        rw [heq] at hmid2
+        exact ⟨_, hmid2, fun hnone => by simp at hnone⟩
+      · rename_i s2 heq
+        rw [heq] at hmid2 hrest
+        exact ih s2 p c _ hmid2 hrest
+
+end Oslo.Insp
+
+namespace Oslo.Insp
+
+theorem lemma_regionComplete_misc (s : Insp) (n : String) :
+    (regionComplete s n).1.total = s.total ∧ (regionComplete s n).1.nextRid = s.nextRid := by
+  unfold regionComplete
+  split
+  · unfold qcowRegionComplete
+    split
+    · exact ⟨rfl, rfl⟩
+    · dsimp only
+      repeat' split
+      all_goals exact ⟨rfl, rfl⟩
+  · split
+    · unfold vmdkParseDescriptor
+      split
+      · exact ⟨rfl, rfl⟩
+      · dsimp only
+        repeat' split
+        all_goals exact ⟨rfl, rfl⟩
+    · exact ⟨rfl, rfl⟩
+  · exact ⟨rfl, rfl⟩
+
+theorem lemma_runCallbacks_misc (names : List String) : ∀ (s : Insp),
+    (runCallbacks s names).1.total = s.total ∧ (runCallbacks s names).1.nextRid = s.nextRid := by
+  induction names with
+  | nil => intro s; exact ⟨rfl, rfl⟩
+  | cons n ns ih =>
+    intro s
+    unfold runCallbacks
+    obtain ⟨r1, f1⟩ := lemma_regionComplete_misc s n
+    split
+    · rename_i s1 e heq
+      rw [heq] at r1 f1
+      exact ⟨r1, f1⟩
+    · rename_i s1 heq
+      rw [heq] at r1 f1
+      obtain ⟨r2, f2⟩ := ih s1
+      exact ⟨r2.trans r1, f2.trans f1⟩
+
+/-- what a region holds is the stream's bytes at the offset it reports -/
+def SliceOK (s : Insp) (q : Bytes) : Prop :=
+  ∀ x ∈ s.regions, x.2.data = sliceOf q x.2.offset x.2.data.length
+
+theorem lemma_slice_extend (x p c : Bytes) (o : Nat) (h : x = sliceOf p o x.length) :
+    x = sliceOf (p ++ c) o x.length := by
+  have hl : x.length ≤ (p.drop o).length := by
+    have := congrArg List.length h
+    simp only [sliceOf, List.length_take] at this
+    omega
+  have e : sliceOf (p ++ c) o x.length = sliceOf p o x.length := by
+    simp only [sliceOf, List.drop_append]
+    exact List.take_append_of_le_length hl
+  rw [e]; exact h
+
+theorem lemma_mid_sliceOK (s : Insp) (p c : Bytes) (seen : List Nat) (h : MidInv s p c seen) :
+    SliceOK s (p ++ c) := by
+  intro x hx
+  by_cases hs : x.2.rid ∈ seen
+  · exact lemma_regInv_slice _ _ ((h.regs x hx).1 hs)
+  · rw [((h.regs x hx).2 hs).2]
+    simp [sliceOf]
+
+/-- one `eat_chunk` under the forward proviso -/
+theorem lemma_eat_slice (s : Insp) (p c : Bytes) (h : StreamInv s p) (hf : fwdEat s c p) :
+    SliceOK (eatChunk s c).1 (p ++ c) ∧
+    ((eatChunk s c).2 = none → StreamInv (eatChunk s c).1 (p ++ c)) := by
+  obtain ⟨fmt, total, regions, nextRid, finished, checks, qi, dt, vt⟩ := s
+  unfold eatChunk
+  unfold fwdEat at hf
+  dsimp only at hf ⊢
+  cases finished
+  case true =>
+    simp only [if_true]
+    refine ⟨?_, fun hn => by simp at hn⟩
+    intro x hx
+    exact lemma_slice_extend _ p c _ (lemma_regInv_slice _ _ (h.regs x hx))
+  case false =>
+    simp only [Bool.false_eq_true, if_false] at hf ⊢
+    obtain ⟨hmid1, hall1⟩ := lemma_first_capture _ p c h
+    obtain ⟨hpp, hrest⟩ := hf
+    have hmid2 := lemma_mid_postProcess _ p c _ hmid1 hall1 hpp
+    split
+    · rename_i s3 e heq
+      rw [heq] at hmid2
+      exact ⟨lemma_mid_sliceOK _ _ _ _ hmid2, fun hn => by simp at hn⟩
+    · rename_i s3 heq
+      rw [heq] at hmid2 hrest
+      obtain ⟨seen', hmid3, hall3⟩ := lemma_followUp_mid 8 s3 p c _ hmid2 hrest
+      split
+      · rename_i s4 e heq4
+        rw [heq4] at hmid3
+        exact ⟨lemma_mid_sliceOK _ _ _ _ hmid3, fun hn => by simp at hn⟩
+      · rename_i s4 heq4
+        rw [heq4] at hmid3 hall3
+        have hall4 := hall3 rfl
+        obtain ⟨hregs, hfmt⟩ := lemma_runCallbacks_regions
+          ((s4.regions.filter (fun p => p.2.complete &&
+              !((regions.filter (·.2.complete)).map (·.2.rid)).contains p.2.rid)).map (·.1)) s4
+        obtain ⟨htot, hnext⟩ := lemma_runCallbacks_misc
+          ((s4.regions.filter (fun p => p.2.complete &&
+              !((regions.filter (·.2.complete)).map (·.2.rid)).contains p.2.rid)).map (·.1)) s4
+        have hstream : StreamInv (runCallbacks s4
+            ((s4.regions.filter (fun p => p.2.complete &&
+              !((regions.filter (·.2.complete)).map (·.2.rid)).contains p.2.rid)).map (·.1))).1 (p ++ c) := by
+          refine ⟨?_, ?_, ?_, ?_⟩
+          · unfold SInv; rw [hregs, hfmt]; exact hmid3.sinv
+          · unfold Bnd; rw [hregs, hnext]; exact hmid3.bnd
+          · rw [htot, hmid3.total]; simp
+          · rw [hregs]
+            intro x hx
+            exact (hmid3.regs x hx).1 (hall4 x hx)
+        refine ⟨?_, fun _ => hstream⟩
+        intro x hx
+        exact lemma_regInv_slice _ _ (hstream.regs x hx)
+
+/-- the forward proviso for a whole feed (InspectWrapper's discipline: stops at the first error) -/
+def fwdFeed : Insp → List Bytes → Bytes → Prop
+  | _, [], _ => True
+  | s, c :: cs, p =>
+    fwdEat s c p ∧
+    match eatChunk s c with
+    | (_, some _) => True
+    | (s1, none) => fwdFeed s1 cs (p ++ c)
+
+theorem lemma_feed_slice (chunks : List Bytes) : ∀ (s : Insp) (p : Bytes), StreamInv s p →
+    fwdFeed s chunks p → (feed s chunks).2 = none →
+    StreamInv (feed s chunks).1 (p ++ chunks.flatten) := by
+  induction chunks with
+  | nil => intro s p h _ _; simpa [feed] using h
+  | cons c cs ih =>
+    intro s p h hf hnone
+    unfold fwdFeed at hf
+    obtain ⟨hfe, hrest⟩ := hf
+    obtain ⟨_, hstream⟩ := lemma_eat_slice s p c h hfe
+    cases heq : eatChunk s c with
+    | mk s1 e =>
+    rw [heq] at hstream hrest
+    simp only [feed, heq] at hnone ⊢
+    cases e with
+    | some e => simp at hnone
+    | none =>
+      simp only at hnone hrest ⊢
+      have := ih s1 (p ++ c) (hstream rfl) hrest hnone
+      have e : p ++ (c :: cs).flatten = p ++ c ++ cs.flatten := by simp
+      rw [e]
+      exact this
+
+end Oslo.Insp
